@@ -149,6 +149,8 @@ fn apply(b: m::Builder, c: &Call) -> (m::Builder, Vec<u8>) {
             (b.rsdpv2(t), i)
         }
         15 => {
+            // one key in 16 asks for a large DHCP blob (structures beyond 64 KiB)
+            let n = if k & 15 == 7 { 66_000 + n * 100 } else { n };
             let t = m::NetworkTag::new(&blob(k, n));
             let i = image(&*t);
             (b.network(t), i)
@@ -307,6 +309,9 @@ fn enumerate(ctx: &Ctx) -> Box<dyn Iterator<Item = Case>> {
         }
     }
     v.push(Case { calls: (0..SLOTS).map(|s| call_for(s, 5)).collect() });
+    // a structure larger than 64 KiB (large DHCP blob) and one with 300 modules
+    v.push(Case { calls: vec![call_for(0, 1), Call { slot: 15, n: 5, key: 7 }, call_for(20, 2)] });
+    v.push(Case { calls: (0..300).map(|i| Call { slot: 2, n: (i % 30) as u8, key: 1000 + i }).collect() });
     v.push(Case { calls: (0..SLOTS).rev().map(|s| call_for(s, 6)).collect() });
     Box::new(v.into_iter())
 }
